@@ -144,3 +144,39 @@ PROPS["C17"] = dict(
     ],
     assumptions=["inputs are valid IRIs (for no-panic: well-formed UTF-8, which &str guarantees)"],
 )
+
+PROPS["C01"] = dict(
+    level="proof",
+    runs=[dict(bin="c01")],
+    quick=dict(n=600, shards=16),
+    thorough=dict(n=60000, shards=128, run_timeout=3000, coq_case_timeout=3000, args=["--u16-full"]),
+    trusted_base=[
+        "model coq/C01/Model.v of inmem/src/{index,graph,dataset}.rs, {graph,dataset}/_iter.rs, the inherited default methods of api/src/{graph,dataset}.rs and the std-collection stores of _foreign_impl.rs (hand-written, arm by arm)",
+        "BTreeSet<[I;k]> is modelled as a strictly sorted duplicate-free list under the lexicographic order (std's B-tree, HashMap, HashSet are trusted); HashSet/BTreeSet stores are sets modulo Eq/Hash/Ord of terms (C02)",
+        "terms are taken modulo Term::eq and interned to identifiers by the harness; a shipped matcher is represented by its constant() plus its exact extension over the 16-class pool (computed by calling the real matcher)",
+        "u32 index width is exercised only far below exhaustion; the u16 boundary by one fixed scenario (thorough tier); exhaustion otherwise through harness-local SmallIdx<M> index types",
+    ],
+    assumptions=["matchers obey the TermMatcher/GraphNameMatcher contract: constant() = Some(c) only if matches(x) <=> x eq c (proved for arrays, Option, .gn() and the harness descriptions; hypothesis tm_wf/gm_wf otherwise)",
+                 "matcher predicates are pure", "Term::eq/Hash are lawful (C02)"],
+)
+
+import regex2coq  # noqa: E402
+
+PROPS["C09"] = dict(
+    level="proof",
+    translators=[regex2coq.gen_regex],
+    extra=[regex2coq.ka_extra],
+    coq_targets=["C09/Model", "C09/Properties"],
+    coq_timeout=2400,
+    runs=[dict(bin="c09")],
+    quick=dict(n=4000, shards=16),
+    thorough=dict(n=300000, shards=128, run_timeout=3000, coq_case_timeout=3000),
+    trusted_base=[
+        "lib/regex2coq.py: parser of the (?x) regex subset; IRI_REGEX_SRC and IRELATIVE_REF_REGEX_SRC are re-generated from iri/src/_regex.rs on every run (exercised by the correspondence run)",
+        "Rfc3987.v and Resolve.v: hand transcriptions of RFC 3987 2.2 / RFC 3986 (Rfc3987.v cross-checked case by case against an independent Rust recogniser)",
+        "Rust regex engine semantics (whole-string anchored match)",
+        "RelationAlgebra's ka: a reflexive Coq-verified decision procedure, no axioms",
+        "Gallina model of oxiri's resolver, tied by testing only; oxiri itself is third-party",
+    ],
+    assumptions=["strings are sequences of Unicode scalar values; the model over N also covers surrogates, as the 'other' atom"],
+)
